@@ -20,6 +20,7 @@ var (
 	leavesFull = []string{"-a", "-b", "-o", "--aa", "-ab", "OPTIONS", "X", "Y", "--"}
 	leavesMid  = []string{"-a", "-o", "-ab", "OPTIONS", "X", "Y", "--"}
 	leavesTiny = []string{"-a", "-ab", "X", "--"}
+	leavesNest = []string{"X", "--", "-a"} // deep nesting of repetitions / optional groups
 
 	tokFull = []string{"x", "v", "-", "--", "-a", "--aa", "-a=true", "-b", "-ab", "-ba", "-o", "-ov", "-o=v", "--out", "--out=v",
 		"-aov", "-ao", "-z", "--zz", "-az", "-o=", "--out=", "-z=v"}
@@ -54,6 +55,7 @@ func langTiers(c *Ctx) []langTier {
 		{"full-s3-l3", leavesFull, 3, tokMid, 3, false},
 		{"full-s2-l3-alltokens", leavesFull, 2, tokFull, 3, false},
 		{"mid-s4-l2", leavesMid, 4, tokMid, 2, false},
+		{"nest-s5-l3", leavesNest, 5, []string{"x", "-a", "--"}, 3, false},
 		{"builtin-s2-l3", leavesFull, 2, tokMid, 3, true},
 	}
 }
